@@ -1,6 +1,7 @@
 import TaskctlVerif.Model.Graph
 import TaskctlVerif.Model.Sched
 import TaskctlVerif.Model.Nested
+import TaskctlVerif.Model.Tree
 import TaskctlVerif.Model.Runner
 import TaskctlVerif.Model.Timeout
 import TaskctlVerif.Model.Cli
@@ -110,6 +111,24 @@ def nestedCase (fields : List String) : String :=
   let σ := Sched.nestedOuterFinal co okf n ins
   let inner := ins.map fun ns => s!"in{ns.S}=" ++ finalStr ns.ni (Sched.nestedInnerFinal co okf n ins ns)
   s!"final={finalStr n σ}|err={if σ.gerr then 1 else 0}|" ++ "|".intercalate inner
+
+/-- `tree node=-:3:-;0;1:000:nnn:111 node=1:2:-;0:00:nn:10 node=1.0:2:…` : pipelines nested to any depth, each
+addressed by the stage indices leading to it (outermost first, `-` is the root); answer: the final statuses and
+run counts of every pipeline, in the order given -/
+def treeCase (fields : List String) : String :=
+  let nodes : List (String × Sched.TNode) := (fields.filter (·.startsWith "node=")).filterMap fun f =>
+    match ((f.drop 5).toString.splitOn ":") with
+    | [path, n, deps, allow, cond, ok] =>
+      let n' := n.toNat?.getD 0
+      let (c, okf) := parseSchedCfg n' deps allow cond ok
+      let p : List Nat := if path = "-" then [] else (natList path ".").reverse
+      some (path, { p := p, n := n', cfg := c, okf := okf })
+    | _ => none
+  let tn := nodes.map (·.2)
+  let fuel := nodes.length + 1
+  let root := Sched.treeFinal tn fuel []
+  s!"err={if root.gerr then 1 else 0}|" ++
+    "|".intercalate (nodes.map fun (path, nd) => s!"{path}=" ++ finalStr nd.n (Sched.treeFinal tn fuel nd.p))
 
 /-- `cockpit a1 r1 r7 a2 f r2`: starts (`a`), finishes (`r`) and frames (`f`) of numbered tasks, then the
 cockpit is closed: the "Finished" lines printed, in order -/
@@ -440,6 +459,7 @@ def handle (line0 : String) : String :=
   | "graph" :: rest => graphCase (" ".intercalate rest)
   | "sched" :: rest => schedCase rest
   | "nested" :: rest => nestedCase rest
+  | "tree" :: rest => treeCase rest
   | "runner" :: rest => runnerCase rest
   | "timed" :: rest => timedCase rest
   | "cli" :: _ => cliCase line
